@@ -51,3 +51,10 @@ Definition tuple_eqb (a b : string * string * list string * list string) : bool 
 Definition stub_agree (c : sfile * stub_obs) : bool :=
   let '(f, (pkg, cns, fs)) := c in
   String.eqb pkg (st_pkg f) && String.eqb cns (st_constraints f) && list_eqb tuple_eqb (declared (stub_lines f) [] []) fs.
+
+(* the property on the implementation's output: each function given to avo is declared once, in
+   order, carrying its documentation and directives, in the requested package, under the given
+   constraint line *)
+Definition stub_impl_ok (c : sfile * stub_obs) : bool :=
+  let '(f, (pkg, cns, fs)) := c in
+  String.eqb pkg (st_pkg f) && String.eqb cns (st_constraints f) && list_eqb tuple_eqb (expected f) fs.
